@@ -44,7 +44,7 @@ CODE_DEFECTS = json.load(open(os.path.join(common.VERIF, "spec", "code_defects.j
 def write_cfg(path, invariants, properties=()):
     with open(path, "w") as f:
         f.write("SPECIFICATION Spec\nCONSTANTS\n  NW <- MC_NW\n  Scripts <- MC_Scripts\n  MaxTick <- MC_MaxTick\n"
-                "  MaxPid <- MC_MaxPid\n  MaxFuel <- MC_MaxFuel\n  Placement <- MC_Placement\n  Defects <- MC_Defects\n"
+                "  MaxPid <- MC_MaxPid\n  MaxFuel <- MC_MaxFuel\n  Placement <- MC_Placement\n  Defects <- MC_Defects\n  IOModes <- MC_IOModes\n"
                 "CHECK_DEADLOCK FALSE\n")
         if invariants:
             f.write("INVARIANTS\n  " + " ".join(invariants) + "\n")
@@ -124,7 +124,8 @@ def make_requests(scenarios, entry, nsched, seed0, nws=None, keep=10, rare_max=6
             reqs.append({"id": "%s#%d" % (s["name"], i), "group": s["name"], "keep": keep, "rare_max": rare_max,
                          "src": src, "nw": nw, "driver": driver,
                          "seed": seed0 * 1000003 + i * 7919 + len(reqs), "quanta": QUANTA if i else [1000],
-                         "max_steps": 6000, "meta": m, "io": bool(s.get("io")), "pct_changes": i % 4})
+                         "max_steps": 6000, "meta": m, "io": bool(s.get("io")), "pct_changes": i % 4,
+                         "deferred_io": bool(s.get("deferred_io"))})
     return reqs
 
 
@@ -197,7 +198,7 @@ def run(prop, tier, check=None):
     # ---- 1. exhaustive model checking
     t0 = time.time()
     mc_fail = []
-    mc_scenarios = [s for s in scenarios if tier != "quick" or not s.get("large")]
+    mc_scenarios = [s for s in scenarios if not s.get("no_mc") and (tier != "quick" or not s.get("large"))]
     check.cov["model_checked_scenarios"] = [s["name"] for s in mc_scenarios]
     with cf.ThreadPoolExecutor(max_workers=5) as ex:
         futs = {ex.submit(model_check, dict(s, defects=[]), prop, 3, 240 if tier == "quick" else 3000): s
